@@ -19,3 +19,21 @@ cp "$REPO/go.sum" "$BUILD/genttx-src/go.sum"
 (cd "$BUILD/genttx-src" && go build -tags verif -o "$BUILD/genttx" .)
 "$BUILD/genttx" > "$BUILD/TtxTables.v.new"
 if ! cmp -s "$BUILD/TtxTables.v.new" "$HERE/coq/Gen/TtxTables.v"; then cp "$BUILD/TtxTables.v.new" "$HERE/coq/Gen/TtxTables.v"; fi
+
+# ---- EBU STL tables (C05): tools/gentables built against the repository with the verif hooks
+GT="$BUILD/gentables-src"
+mkdir -p "$GT"
+cp "$HERE/tools/gentables/main.go" "$GT/main.go"
+cat > "$GT/go.mod" <<MOD
+module gentables
+
+go 1.21
+
+require github.com/asticode/go-astisub v0.0.0
+
+replace github.com/asticode/go-astisub => $REPO
+MOD
+cp "$REPO/go.sum" "$GT/go.sum"
+(cd "$GT" && go build -tags verif -o "$BUILD/gentables" .)
+"$BUILD/gentables" > "$BUILD/StlTables.v.new"
+if ! cmp -s "$BUILD/StlTables.v.new" "$HERE/coq/Gen/StlTables.v"; then cp "$BUILD/StlTables.v.new" "$HERE/coq/Gen/StlTables.v"; fi
